@@ -246,8 +246,8 @@ prop("C10", "receiver fed arbitrary bytes",
 # ---------------------------------------------------------------- histories by one step
 VSTEP = {"V_U8_st": ("FlatVec<u8,u8>", 7, 900), "V_U16_st": ("FlatVec<u16,u8>", 9, 1200), "V_U8L32_st": ("FlatVec<u8,u32>", 10, 1200),
          "V_A3_st": ("FlatVec<[u8;3],u16>", 10, 1800), "V_P_st": ("FlatVec<le::U16,le::U16>", 8, 1200)}
-XSTEP = {"X_U8_st": ("FlexVec<u8,u8>", 5, 2700), "X_U8_st6": ("FlexVec<u8,u8>", 6, 3600), "X_U16_st": ("FlexVec<u16,u16>", 6, 3600), "X_P_st": ("FlexVec<le::U16,le::U16>", 6, 3600)}
-XOPS = ["push", "push_default", "pop", "truncate", "clear", "edit"]
+XSTEP = {"X_U8_st4": ("FlexVec<u8,u8>", 4, 800), "X_U8_st": ("FlexVec<u8,u8>", 5, 2700), "X_U8_st6": ("FlexVec<u8,u8>", 6, 3600), "X_U16_st": ("FlexVec<u16,u16>", 6, 3600), "X_P_st": ("FlexVec<le::U16,le::U16>", 6, 3600)}
+XOPS = ["push", "push_default", "pop", "truncate", "clear", "edit", "push_failing"]
 XVOPS = ["push", "pop", "truncate", "edit"]
 STEP_ASSUME = ["a history is covered by one step from an arbitrary valid image (every validating image is a reachable state and every reachable state must validate, which each step re-asserts); the composition over steps is a paper argument"]
 
@@ -257,7 +257,7 @@ def vsteps(what, quick=("V_U8_st", "V_U16_st", "V_P_st")):
               what, tier="quick" if m in quick else "thorough") for m, (doc, n, t) in VSTEP.items()]
 
 
-def xsteps(what, quick=("X_U8_st",), ops=None):
+def xsteps(what, quick=("X_U8_st4",), ops=None):
     return [H("step::%s::%s" % (m, op), t, 20, "every valid image <= %d bytes x %s with arbitrary arguments; %s" % (n, op, doc),
               what, tier="quick" if m in quick else "thorough") for m, (doc, n, t) in XSTEP.items() for op in (ops or XOPS)]
 
@@ -288,8 +288,9 @@ prop("C13", "a rejected container operation leaves the container as it was",
      ["'offset not representable in the length type' needs an item of >= 254 bytes: outside the byte bound"],
      vsteps("refused push/push_slice leave the FlatVec unchanged", quick=("V_U8_st", "V_U16_st"))
      + [H("step::string::str_step", 1800, 12, "every valid FlatString<u8> image <= 6 bytes", "refused push/push_str leave the FlatString unchanged")]
-     + xsteps("refused FlexVec::push leaves the FlexVec unchanged", ops=["push", "push_default"])
-     + xvsteps("push refused by the item's emplacer (slot fits, item does not) leaves the FlexVec unchanged", ops=["push"], tier="quick"),
+     + xsteps("refused FlexVec::push (no room, or the item's emplacer fails) leaves the FlexVec unchanged", ops=["push", "push_default", "push_failing"])
+     + [H("step::X_V_st4::push", 2400, 16, "every valid image <= 4 bytes x push of a FlatVec of 0..2 items; FlexVec<FlatVec<u8,u8>,u8>", "push refused because the unsized item does not fit leaves the FlexVec unchanged", tier="thorough")]
+     + xvsteps("push refused by the item's emplacer leaves the FlexVec unchanged (larger images)", ops=["push"]),
      STEP_ASSUME)
 
 
